@@ -1,13 +1,266 @@
 /-
-C09 — property theorems for the leader-aware status updater model (`NGF.Model.Leader`).
+C09 — only the leader writes status; the newest status survives a leadership change.
+
+Property theorems for the leader-aware status updater model (`NGF.Model.Leader`, the functions the
+driver runs and the correspondence compares with the real `LeaderAwareGroupUpdater`).  Every theorem
+quantifies over ALL operation lists: because both Go methods hold the mutex for their whole body
+(`updater_structure_as_modelled` below), every interleaving of per-group submissions with the
+enable-on-leadership call, overlapping or not, is one such list.
+
+Vocabulary (defined in the model file without reference to the state machine):
+`latest pre` = the submissions of `pre` that are the last one of their group and not empty;
+`after op`   = one immediate write of exactly the submitted requests (a second `Enable` panics).
 -/
 import NGF.Model.Leader
 import NGF.Model.LeaderJudge
+import NGF.Proofs.Leader
+import NGF.Proofs.LeaderJudge
 import NGF.Generated.LeaderFacts
 
 namespace NGF.Leader
 
-/-- Tie to the source: what the model assumes about the code, regenerated on every run. -/
+/-- The whole behaviour in one equation: for every history `pre ++ [Enable] ++ post` in which `pre`
+contains no `Enable`, nothing is written during `pre`, `Enable` flushes the saved map, and every
+operation of `post` is performed immediately. -/
+theorem run_decompose (pre : List Op) (o : List Group) (post : List Op) (h : NoEnable pre) :
+    run init (pre ++ .enable o :: post) =
+      pre.map (fun _ => Out.writes []) ++
+        Out.writes (flush o (exec init pre).saved) :: post.map after := by
+  obtain ⟨he, _, hr, _⟩ := disabled_exec pre init rfl h (by simp [init, keys])
+  rw [run_append, hr]
+  congr 1
+  have hs : step (exec init pre) (.enable o) =
+      ({ enabled := true, saved := [] }, Out.writes (flush o (exec init pre).saved)) := by
+    simp [step, he]
+  simp only [run, hs]
+  rw [enabled_run rfl]
+
+/-- what `Enable` writes is, up to the map iteration order, exactly `latest pre` -/
+theorem flush_perm_latest (pre : List Op) (o : List Group) (h : NoEnable pre) :
+    (flush o (exec init pre).saved).Perm (latest pre) := by
+  obtain ⟨_, hn, _, hp⟩ := disabled_exec pre init rfl h (by simp [init, keys])
+  exact (flush_perm o _ hn).trans (by simpa [init] using hp)
+
+/-! ### Clause 1 — a replica that is not the leader never writes any status -/
+
+/-- No operation performed before `Enable` writes anything, whatever follows. -/
+theorem no_write_before_enable (pre rest : List Op) (h : NoEnable pre) :
+    (run init (pre ++ rest)).take pre.length = pre.map (fun _ => Out.writes []) := by
+  obtain ⟨_, _, hr, _⟩ := disabled_exec pre init rfl h (by simp [init, keys])
+  rw [run_append, hr, List.take_left' (by simp)]
+
+/-- A replica that never becomes leader never writes. -/
+theorem never_leader_never_writes (ops : List Op) (h : NoEnable ops) :
+    ∀ out ∈ run init ops, out = Out.writes [] := by
+  obtain ⟨_, _, hr, _⟩ := disabled_exec ops init rfl h (by simp [init, keys])
+  intro out hm
+  rw [hr] at hm
+  obtain ⟨_, _, e⟩ := List.mem_map.1 hm
+  exact e.symm
+
+/-! ### Clause 2 — at `Enable`: for each group the most recently computed statuses, nothing older -/
+
+/-- The operation at the position of `Enable` writes a permutation of `latest pre`. -/
+theorem flush_is_latest_per_group (pre : List Op) (o : List Group) (post : List Op)
+    (h : NoEnable pre) :
+    ∃ ws, (run init (pre ++ .enable o :: post))[pre.length]? = some (Out.writes ws) ∧
+      ws.Perm (latest pre) := by
+  refine ⟨flush o (exec init pre).saved, ?_, flush_perm_latest pre o h⟩
+  rw [run_decompose pre o post h]
+  rw [List.getElem?_append_right (by simp)]
+  simp
+
+/-- `latest` is what the statement says: `(g, r)` is in it iff `r` is a non-empty submission to `g`
+after which `pre` contains no further submission to `g`. -/
+theorem mem_latest_iff (g : Group) (r : List Req) : ∀ (pre : List Op),
+    (g, r) ∈ latest pre ↔
+      ∃ a b, pre = a ++ .update g r :: b ∧ superseded g b = false ∧ r ≠ []
+  | [] => by simp [latest]
+  | .enable o :: ops => by
+    rw [show latest (.enable o :: ops) = latest ops from rfl, mem_latest_iff g r ops]
+    constructor
+    · rintro ⟨a, b, e, hs, hr⟩
+      exact ⟨.enable o :: a, b, by simp [e], hs, hr⟩
+    · rintro ⟨a, b, e, hs, hr⟩
+      cases a with
+      | nil => simp at e
+      | cons x a =>
+        simp only [List.cons_append, List.cons.injEq] at e
+        exact ⟨a, b, e.2, hs, hr⟩
+  | .update g' r' :: ops => by
+    have ih := mem_latest_iff g r ops
+    constructor
+    · intro hm
+      simp only [latest] at hm
+      split at hm
+      · obtain ⟨a, b, e, hs, hr⟩ := ih.1 hm
+        exact ⟨.update g' r' :: a, b, by simp [e], hs, hr⟩
+      · next hc =>
+        simp only [Bool.or_eq_true, not_or] at hc
+        rcases List.mem_cons.1 hm with hm | hm
+        · simp only [Prod.mk.injEq] at hm
+          obtain ⟨rfl, rfl⟩ := hm
+          refine ⟨[], ops, rfl, by simp [hc.1], ?_⟩
+          intro e
+          exact hc.2 (by simp [e])
+        · obtain ⟨a, b, e, hs, hr⟩ := ih.1 hm
+          exact ⟨.update g' r' :: a, b, by simp [e], hs, hr⟩
+    · rintro ⟨a, b, e, hs, hr⟩
+      cases a with
+      | nil =>
+        simp only [List.nil_append, List.cons.injEq, Op.update.injEq] at e
+        obtain ⟨⟨rfl, rfl⟩, rfl⟩ := e
+        have hne : r'.isEmpty = false := by
+          cases r' with
+          | nil => exact absurd rfl hr
+          | cons _ _ => rfl
+        simp [latest, hs, hne]
+      | cons x a =>
+        simp only [List.cons_append, List.cons.injEq] at e
+        have hm : (g, r) ∈ latest ops := ih.2 ⟨a, b, e.2, hs, hr⟩
+        simp only [latest]
+        split
+        · exact hm
+        · exact List.mem_cons_of_mem _ hm
+
+/-- "Nothing older": whatever `Enable` writes for a group is that group's last submission before
+`Enable` — never a superseded one, and never the requests of a group whose last submission was
+empty. -/
+theorem flush_nothing_older (pre : List Op) (o : List Group) (h : NoEnable pre)
+    (g : Group) (r : List Req) (hm : (g, r) ∈ flush o (exec init pre).saved) :
+    ∃ a b, pre = a ++ .update g r :: b ∧ superseded g b = false ∧ r ≠ [] :=
+  (mem_latest_iff g r pre).1 ((flush_perm_latest pre o h).mem_iff.1 hm)
+
+/-- "The most recently computed statuses": every group's last submission, if it carries requests, is
+written by `Enable`. -/
+theorem flush_contains_latest (pre : List Op) (o : List Group) (h : NoEnable pre)
+    (a b : List Op) (g : Group) (r : List Req) (hpre : pre = a ++ .update g r :: b)
+    (hlast : superseded g b = false) (hr : r ≠ []) :
+    (g, r) ∈ flush o (exec init pre).saved :=
+  (flush_perm_latest pre o h).mem_iff.2 ((mem_latest_iff g r pre).2 ⟨a, b, hpre, hlast, hr⟩)
+
+/-- At most one write per group at `Enable`. -/
+theorem flush_one_write_per_group (pre : List Op) (o : List Group) (h : NoEnable pre) :
+    (keys (flush o (exec init pre).saved)).Nodup := by
+  have hp : (keys (flush o (exec init pre).saved)).Perm (keys (latest pre)) :=
+    (flush_perm_latest pre o h).map _
+  exact hp.nodup_iff.2 (latest_keys_nodup pre)
+
+/-- The Go map iteration order does not matter: two flush orders write the same multiset. -/
+theorem flush_order_irrelevant (pre : List Op) (o₁ o₂ : List Group) (h : NoEnable pre) :
+    (flush o₁ (exec init pre).saved).Perm (flush o₂ (exec init pre).saved) :=
+  (flush_perm_latest pre o₁ h).trans (flush_perm_latest pre o₂ h).symm
+
+/-! ### Clause 3 — from then on it writes immediately -/
+
+/-- After `Enable` every submission is written at once, exactly as submitted, exactly once; nothing
+that was saved earlier is written again. -/
+theorem immediate_after_enable (pre : List Op) (o : List Group) (post : List Op)
+    (h : NoEnable pre) :
+    (run init (pre ++ .enable o :: post)).drop (pre.length + 1) = post.map after := by
+  rw [run_decompose pre o post h]
+  simp [List.drop_append]
+
+/-- `Enable` can only be called once: a second call panics before touching anything, and the updater
+keeps writing immediately afterwards. -/
+theorem enable_twice_panics (pre : List Op) (o o' : List Group) (mid post : List Op)
+    (h : NoEnable pre) :
+    (run init (pre ++ .enable o :: (mid ++ .enable o' :: post))).drop (pre.length + 1) =
+      mid.map after ++ Out.panic :: post.map after := by
+  rw [immediate_after_enable pre o _ h]
+  simp [after]
+
+/-! ### Exactly once over the whole history -/
+
+/-- Over a whole history the writes are, as a multiset, the latest-per-group submissions made before
+`Enable` plus every submission made after it: superseded and cleared statuses are never written, and
+nothing is written twice. -/
+theorem writes_exactly_once (pre : List Op) (o : List Group) (post : List Op) (h : NoEnable pre) :
+    (allWrites (run init (pre ++ .enable o :: post))).Perm (latest pre ++ submissions post) := by
+  rw [run_decompose pre o post h]
+  have e : allWrites (pre.map (fun _ => Out.writes []) ++
+      Out.writes (flush o (exec init pre).saved) :: post.map after) =
+      allWrites (pre.map (fun _ => Out.writes [])) ++
+        (flush o (exec init pre).saved ++ allWrites (post.map after)) := by
+    simp [allWrites]
+  rw [e, allWrites_nothing, allWrites_after]
+  exact (flush_perm_latest pre o h).append_right _
+
+/-! ### The judge's sequential specification accepts what the model does
+
+`okAt pre c obs` is what the linearisation search of the judge asks of every operation.  For every
+run of the model it holds (for the flush under the harness's convention that the first request tags
+of the flushed groups are distinct), so the judge demands nothing the theorems above do not give. -/
+
+theorem judge_accepts_model_before_enable (pre : List Op) (h : NoEnable pre)
+    (g : Group) (r : List Req) (call ret : Nat) :
+    okAt pre ⟨false, g, r, call, ret, false⟩ [] = true := by
+  unfold NoEnable at h
+  simp [okAt, h]
+
+theorem judge_accepts_model_flush (pre : List Op) (o : List Group) (h : NoEnable pre)
+    (hd : ((latest pre).map (fun w => w.2.head?)).Nodup) (call ret : Nat) :
+    okAt pre ⟨true, 0, [], call, ret, false⟩
+      (((flush o (exec init pre).saved).map (·.2)).flatten) = true := by
+  have hm := chunksMatch_of_perm _ _ ((latest pre).length + 1) (flush_perm_latest pre o h)
+    (latest_nonempty pre) hd (Nat.lt_succ_self _)
+  unfold NoEnable at h
+  simp [okAt, h, hm]
+
+theorem judge_accepts_model_after_enable (pre : List Op) (h : pre.any Op.isEnable = true)
+    (g : Group) (r : List Req) (call ret : Nat) :
+    okAt pre ⟨false, g, r, call, ret, false⟩
+      (((allWrites [after (.update g r)]).map (·.2)).flatten) = true := by
+  simp [okAt, h, allWrites, after]
+
+/-! ### Non-vacuity -/
+
+example : NoEnable [.update 1 [5, 6], .update 0 [3], .update 0 [], .update 1 [7]] := by decide
+
+example :
+    run init [.update 1 [5, 6], .update 0 [3], .update 0 [], .update 1 [7], .update 2 [9],
+              .enable [2, 1], .update 1 [8], .update 0 [], .enable []] =
+      [.writes [], .writes [], .writes [], .writes [], .writes [],
+       .writes [(2, [9]), (1, [7])], .writes [(1, [8])], .writes [(0, [])], .panic] := by decide
+
+example : latest [.update 1 [5, 6], .update 0 [3], .update 0 [], .update 1 [7], .update 2 [9]] =
+    [(1, [7]), (2, [9])] := by decide
+
+example : ((latest [.update 1 [5, 6], .update 0 [3], .update 0 [], .update 1 [7], .update 2 [9]]).map
+    (fun w => w.2.head?)).Nodup := by decide
+
+/-- the judge accepts a correct concurrent history (submission 1 overlaps `Enable`) … -/
+example : judge { elected := some 10,
+                  ops := [⟨false, 1, [5, 6], 1, 3, false⟩, ⟨false, 1, [7], 4, 16, false⟩,
+                          ⟨true, 0, [], 11, 20, false⟩, ⟨false, 1, [8], 21, 25, false⟩],
+                  writes := [⟨2, 5, 12⟩, ⟨2, 6, 13⟩, ⟨1, 7, 14⟩, ⟨3, 8, 22⟩] } = none := by decide
+
+/-- … and rejects a stale flush, a write by a non-leader, a lost submission. -/
+example : judge { elected := some 10,
+                  ops := [⟨false, 1, [5, 6], 1, 3, false⟩, ⟨false, 1, [7], 4, 6, false⟩,
+                          ⟨true, 0, [], 11, 20, false⟩],
+                  writes := [⟨2, 5, 12⟩, ⟨2, 6, 13⟩] } = some "stale_flush" := by decide
+
+/-- an old status flushed after a newer one was written immediately (flush outside the lock) -/
+example : judge { elected := some 5,
+                  ops := [⟨false, 0, [1], 1, 2, false⟩, ⟨true, 0, [], 6, 14, false⟩,
+                          ⟨false, 0, [2], 7, 10, false⟩],
+                  writes := [⟨2, 2, 8⟩, ⟨1, 1, 12⟩] } = some "older_overwrites_newer" := by decide
+
+example : judge { elected := none, ops := [⟨false, 1, [5], 1, 4, false⟩],
+                  writes := [⟨0, 5, 2⟩] } = some "nonleader_write" := by decide
+
+example : judge { elected := some 5,
+                  ops := [⟨false, 1, [5], 1, 3, false⟩, ⟨false, 1, [7], 6, 16, false⟩,
+                          ⟨true, 0, [], 7, 12, false⟩],
+                  writes := [⟨2, 5, 9⟩] } = some "no_linearisation" := by decide
+
+/-! ### Tie to the source: structural facts regenerated by the translator -/
+
+/-- `UpdateGroup` and `Enable` hold the mutex for their whole body and consist of exactly the
+statements the model's `step` transcribes; no other method exists, `enabled` is only ever set by
+`Enable`, the map and the lock are touched nowhere else; `Updater.Update` writes the requests in
+order. -/
 theorem updater_structure_as_modelled :
     Generated.Leader.updateGroupBody =
       ["u.lock.Lock()", "defer u.lock.Unlock()",
@@ -17,7 +270,53 @@ theorem updater_structure_as_modelled :
       ["u.lock.Lock()", "defer u.lock.Unlock()",
        "if u.enabled { panic(errors.New(\"LeaderAwareGroupUpdater can only be enabled once\")) }",
        "u.enabled = true",
-       "for name, reqs := range u.groupReqs { u.updater.Update(ctx, reqs...) delete(u.groupReqs, name) }"] := by
+       "for name, reqs := range u.groupReqs { u.updater.Update(ctx, reqs...) delete(u.groupReqs, name) }"] ∧
+    Generated.Leader.constructorBody =
+      ["return &LeaderAwareGroupUpdater{ updater: updater, lock: &sync.Mutex{}, groupReqs: make(map[string][]UpdateRequest), }"] ∧
+    Generated.Leader.structFields =
+      ["updater *Updater", "lock *sync.Mutex", "groupReqs map[string][]UpdateRequest", "enabled bool"] ∧
+    Generated.Leader.methods = ["Enable", "UpdateGroup"] ∧
+    Generated.Leader.enabledWrites = ["Enable: u.enabled = true"] ∧
+    Generated.Leader.lockUses = ["UpdateGroup", "UpdateGroup", "Enable", "Enable"] ∧
+    Generated.Leader.groupReqsUses = ["UpdateGroup", "UpdateGroup", "Enable", "Enable"] ∧
+    Generated.Leader.updaterUpdateShape =
+      ["for range reqs", "select { case <-ctx.Done(): return default: }",
+       "u.writeStatuses(ctx, r.NsName, r.ResourceType, r.Setter)"] := by
+  decide
+
+/-- The leader-election runnable asks for leader election and calls the enable function once. -/
+theorem runnable_as_modelled :
+    Generated.Leader.runnableNeedLeaderElectionBody = ["return true"] ∧
+    Generated.Leader.runnableStartBody = ["j.enable(ctx)", "return nil"] ∧
+    Generated.Leader.runnableConstructorBody = ["return &EnableAfterBecameLeader{ enable: enable, }"] := by
+  decide
+
+/-- Static mode: the only `status.Updater` goes into the leader-aware wrapper and nowhere else; the
+handler receives the wrapper (as a `GroupUpdater`) and only calls `UpdateGroup` on it, with the three
+distinct group names; `Enable` is referenced once, by the leader-election runnable that is added to
+the manager directly; nothing else in static mode or the framework touches a status subresource. -/
+theorem static_mode_wiring_as_modelled :
+    Generated.Leader.rawUpdaterVars = ["statusUpdater"] ∧
+    Generated.Leader.wrapperVars = ["groupStatusUpdater"] ∧
+    Generated.Leader.rawUpdaterUses = ["status.NewLeaderAwareGroupUpdater(statusUpdater)"] ∧
+    Generated.Leader.wrapperUses =
+      ["statusUpdater: groupStatusUpdater",
+       "runnables.NewEnableAfterBecameLeader(groupStatusUpdater.Enable)"] ∧
+    Generated.Leader.enableRegistrations =
+      ["mgr.Add(runnables.NewEnableAfterBecameLeader(groupStatusUpdater.Enable))"] ∧
+    Generated.Leader.enableSelectors = ["manager.go: groupStatusUpdater.Enable"] ∧
+    Generated.Leader.newUpdaterSites = ["manager.go"] ∧
+    Generated.Leader.handlerStatusUpdaterType = "frameworkStatus.GroupUpdater" ∧
+    Generated.Leader.handlerStatusCalls =
+      ["h.cfg.statusUpdater.UpdateGroup(groupAllExceptGateways)",
+       "h.cfg.statusUpdater.UpdateGroup(groupGateways)",
+       "h.cfg.statusUpdater.UpdateGroup(groupControlPlane)",
+       "h.cfg.statusUpdater.UpdateGroup(groupGateways)",
+       "h.cfg.statusUpdater.UpdateGroup(groupGateways)"] ∧
+    Generated.Leader.handlerStatusOtherRefs = [] ∧
+    Generated.Leader.groupNames.length = 3 ∧ Generated.Leader.groupNames.Nodup ∧
+    Generated.Leader.statusSubresourceSites =
+      ["internal/framework/status/updater.go: writeStatuses: u.client.Status()"] := by
   decide
 
 end NGF.Leader
